@@ -526,6 +526,13 @@ func runJoe(args []string) string {
 		switch point {
 		case "shut.enter":
 			return // nothing to record, and no lock taken: burst callers stay together
+		case "init.step":
+			// cold start: whoever initialises the Joe lingers between the steps, so that the other first calls
+			// arrive while the initialisation is half done (nothing recorded, no lock taken)
+			if sc.cold {
+				time.Sleep(100 * time.Microsecond)
+			}
+			return
 		case "sub.enter":
 			t.mu.Lock()
 			t.doneToSub[chanKey(b)] = a.(*joeWriter).idx
